@@ -47,6 +47,21 @@ CHECKS = {
             'Trusts vlib/ref.py (self-validated in C01), ctypes struct layouts; lengths <= 12; two open findings '
             '(F04a psi wider than band in the C kernels, F04b partial slices) exclude their regions.',
             'DESIGN.md §3 C04'),
+    'C05': ('property-based testing (Hypothesis): validity predicate over every returned path (any optimal path accepted) '
+            'and re-accumulated cost against the reported and the reference distance',
+            'Generated cases x ~10 path entry points in both engines (incl. compact matrices and custom start cells '
+            'through ctypes with canaries around the l1+l2 index arrays); each path must be contiguous, in band, within '
+            'max_step, start/end in the relaxed corners and cost exactly the distance.',
+            'Trusts vlib/ref.py; two open findings (F05a psi wider than band in C, F05b backtracking from skipped end '
+            'cells) exclude narrow regions computed from the reference table.',
+            'DESIGN.md §3 C05'),
+    'C06': ('property-based testing (Hypothesis) + exhaustive enumeration of all blocks for n <= 5/7 against a row-major '
+            'pair list written from the property text',
+            'Generated collections/containers/blocks/forms for both engines compared entry by entry with the reference '
+            'pair list and reference distances; every block x flag for small n is enumerated completely for the '
+            'bookkeeping helpers (Python with and without NumPy, C length and loop order through ctypes).',
+            'Trusts vlib/ref.py for entry values; the exhaustive leg is complete only for the stated n.',
+            'DESIGN.md §3 C06'),
     'C09': ('property-based testing (Hypothesis): inequalities against the reference DTW and equality of every bound '
             'implementation with an independent reference bound',
             'Generated pairs with sign classes, unequal lengths, windows, ndim; LB_Keogh <= DTW and ED >= DTW are checked '
